@@ -47,6 +47,9 @@ def check_reader(ctx, db):
                 bad = None
                 for info in range(256):
                     def choose(kind, text, rec=rec):
+                        rt = O.record_test(text, rec, None)
+                        if rt is not None:
+                            return rt
                         if 'record ==' in text:
                             m = re.search(r'OasisRecord::(\w+)', text)
                             return m is not None and m.group(1) == rec
@@ -134,19 +137,48 @@ def check_reader(ctx, db):
             ctx.check(ok, 'R-DEP', 'read_oas/RECTANGLE-square', top.loc(), 'height = width exactly when S is set and no explicit height is present (independent of W: the width may come from the modal variable)',
                       'the square rule of RECTANGLE depends on other bits than S and H (e.g. nested under W): a square re-using the modal width keeps a stale height')
     ctx.require('R-FIELDSEQ reader arms', n, 20)
-    # uniform position blocks
+    # position blocks: every info-bit-guarded coordinate read either replaces the modal coordinate (absolute mode) or is added to it
+    # (relative mode), scaled by `factor` - decided by interpreting the guarded statement (sa/minieval) for both modes, so an
+    # if/else, a conditional expression or a helper / lambda taking the coordinate by reference are the same block
+    from .. import minieval as M
     blocks = []
+    bad = []
     for i in f.walk():
         if i.k == 'IfStmt' and O.info_mask(i.child('cond')) is not None:
             th = i.child('then')
-            if th is not None and any(c.k == 'CallExpr' and c.callee == 'gdstk::oasis_read_integer' for c in th.walk()) and any('modal_absolute_pos' in norm(x.text()) for x in th.walk() if x.k == 'IfStmt'):
-                t = norm(clone.canon(th, f, ren=lambda n_: n_.n if n_.n.startswith('modal_') or n_.n in ('factor', 'in') else 'V'))
-                t = re.sub(r'modal_(placement|text|geom)_pos\.([xy])', 'POS', t)
-                blocks.append((i.loc(), t))
-    ref = blocks[0][1] if blocks else ''
-    bad = [b for b in blocks if b[1] != ref]
-    ctx.check(len(blocks) >= 18 and not bad and 'double V = (factor * oasis_read_integer(in))' in ref and '(POS = V)' in ref and '(POS += V)' in ref, 'R-CLONE', 'read_oas/position-blocks', f.loc(),
-              'all %d coordinate reads are the same block: v = factor x sint; absolute -> assign, relative -> add' % len(blocks), 'position handling differs at %s' % [b[0] for b in bad][:3])
+            if th is None or not any(c.k == 'CallExpr' and c.callee == 'gdstk::oasis_read_integer' for c in th.walk()):
+                continue
+            if not any(x.k == 'DeclRefExpr' and re.fullmatch(r'modal_(placement|text|geom)_pos', x.n or '') for x in th.walk()):
+                continue
+            if not any(x.k == 'DeclRefExpr' and x.n == 'modal_absolute_pos' for x in th.walk()):
+                continue
+            blocks.append(i)
+            for mode in (0, 1):
+                env = {'factor': 3, 'modal_absolute_pos': mode, 'in': ('opaque', 'in')}
+                for k_ in ('placement', 'text', 'geom'):
+                    env['modal_%s_pos' % k_] = M.Obj(x=100, y=200)
+
+                def hook(callee, args, node):
+                    if callee == 'gdstk::oasis_read_integer':
+                        return (7,)
+                    return None
+                mi = M.Mini(db, hook=hook)
+                mi.obj_store = True
+                try:
+                    mi.run(th, env)
+                except (M.Return, M._Break, M._Continue):
+                    pass
+                except AnalysisBroken as ex:
+                    raise AnalysisBroken('read_oas: coordinate block at %s is outside the interpreter: %s' % (i.loc(), ex))
+                changed = [(k_, c_, env['modal_%s_pos' % k_][c_]) for k_ in ('placement', 'text', 'geom') for c_ in ('x', 'y') if env['modal_%s_pos' % k_][c_] != {'x': 100, 'y': 200}[c_]]
+                want = lambda c_: 21 if mode else {'x': 100, 'y': 200}[c_] + 21
+                if len(changed) != 1 or changed[0][2] != want(changed[0][1]):
+                    bad.append((i.loc(), 'absolute' if mode else 'relative', changed))
+    ctx.explored['valuations'] += 2 * len(blocks)
+    ctx.check(not bad, 'R-CLONE', 'read_oas/position-blocks', f.loc(),
+              'all %d coordinate reads: one modal coordinate becomes factor x value in absolute mode and is advanced by factor x value in relative mode' % len(blocks),
+              'position handling is wrong at %s' % ['%s (%s mode: %s)' % b_ for b_ in bad][:3])
+    ctx.require('R-CLONE position blocks', len(blocks), 18)
     # each position block writes the modal position of its record family
     cellarm = next((stmts for labels, stmts, top in tables.switch_arms(sw) if any(names.get(l) == 'CELL' for l in labels)), [])
     t = norm(' '.join(x.text() for st in cellarm for x in st.walk() if is_assign(x)))
